@@ -3,5 +3,5 @@ package main
 import "github.com/vektah/gqlparser/v2/zz_verif/gen"
 
 func buildPoolsGen(r *gen.Rng, s *Session) { buildPoolsCorpus(r, s) }
-func c11Main(args []string)               {}
-func c11ReplayMain(args []string)         {}
+
+func c11PoolGen(r *gen.Rng) (NamedText, []string) { return c11PoolCorpus(r) }
